@@ -48,7 +48,7 @@ static void mon_stop_effects(int s) {
         if (m->src[i].present && m->src[i].kind == K_FD && (m->src[i].flags & 1)) { /* AUTOCLOSE: the user fd is closed by the library now */ UFD[m->src[i].key].open_rd = 0; }
         m->src[i].present = 0;
     }
-    m->nst = 0; m->nhs = 0; m->batch_size = 0; m->batch_tmo = 0; m->batch_fired = 0; m->tb_rate = 0; m->tb_burst = 0;
+    m->ever_batched = 0; m->nst = 0; m->nhs = 0; m->batch_size = 0; m->batch_tmo = 0; m->batch_fired = 0; m->tb_rate = 0; m->tb_burst = 0;
     m->st = S_STOPPED;
 }
 
@@ -80,7 +80,8 @@ static void cb_enter(int s, int kind) {
             int pi = -1;
             for (int i = 0; i < m->nmb; i++) if (m->mb[i].kind == 0 && MSG[m->mb[i].msg].topic == T_PILL) { pi = i; break; }
             if (pi >= 0) {
-                if (ON(R_PILL)) for (int i = 0; i < pi; i++) if (!m->mb[i].optional && m->mb[i].kind == 0)
+                int held = m->ever_batched; for (int q = 0; q < NPAT; q++) if (m->sub[q].present && m->sub[q].prio == PR_LOW) held = 1;
+                if (ON(R_PILL) && !held) for (int i = 0; i < pi; i++) if (!m->mb[i].optional && m->mb[i].kind == 0)
                     vfail("PS.pill", "PS.pill|early", "poison pill stopped %s before message #%d, sent to it earlier, was handed over", m->name, m->mb[i].msg);
                 MSG[m->mb[pi].msg].owed--; mb_remove(s, pi);
                 mon_stop_effects(s); stop_notif_opt = 0; break;
